@@ -251,7 +251,7 @@ def run(ctx):
                 detail={"exits": len(rets)})
 
     # ---- R20.7: the replacement cache is a memo consulted one key at a time
-    r.rule("R20.7", "the replacement cache is a key-determined memo: read and written one key at a time, never used wholesale", floor=4)
+    r.rule("R20.7", "the replacement cache is a key-determined memo: read and written one key at a time, never used wholesale", floor=3)
     parents = {}
     n_uses = 0
     for mn, mm in cls.methods.items():
@@ -311,7 +311,7 @@ def run(ctx):
                 r.check("R20.7", val is not None and not free, "cache-value-key-determined::%s" % mn, where,
                         "the value stored in the replacement cache depends on more than its key (%s): what a character is replaced by "
                         "depends on the call that first met it" % sorted(free), data={"method": mn})
-    r.idiom("R20.7", n_uses >= 4, "cache-uses-found", cls.where, "only %d uses of self.replaceCache were found" % n_uses)
+    r.idiom("R20.7", n_uses >= 3, "cache-uses-found", cls.where, "only %d uses of self.replaceCache were found" % n_uses)
 
     # ---- R20.5
     init = cls.methods["__init__"]
